@@ -76,6 +76,21 @@ pub fn run(args: &Args) -> (Meta, Stats) {
         let mut k = 0u64;
         while !expired(deadline) {
             k += 1;
+            if k % 40 == 7 {
+                // scaled-up inputs: wide tags (duplicates at a distance), long runs, many siblings
+                if rng.chance(1, 2) {
+                    let input = crate::big::big_xml(&mut rng);
+                    let cuts = crate::big::big_cuts(&mut rng, input.chars().count());
+                    check_xml(&input, &cuts, st);
+                    st.count("big_xml_runs");
+                } else {
+                    let input = crate::big::big_html(&mut rng);
+                    let cuts = crate::big::big_cuts(&mut rng, input.chars().count());
+                    check_html(&input, &cuts, &HtmlOpts::default(), st);
+                    st.count("big_html_runs");
+                }
+                continue;
+            }
             if k % 5 == 0 {
                 let input = if rng.chance(1, 3) { gen::xml_ns_doc(&mut rng) } else { gen::xml_doc(&mut rng, 16) };
                 let n = input.chars().count();
